@@ -103,8 +103,11 @@ inductive Err
   | key | index | value | runtime | struct | zeroDiv | recursion | os | type | assertion | other
   | symbolNotDefined (name : String)
   | node (msg : String) (line : Int)     -- `NodeError` (message class, line of `file_info`; -1 when absent)
+  | nodeAt (msg : String) (file : Nat) (line : Int)  -- `NodeError` with the file of `file_info`
   | scan (msg : String) (line col : Int)  -- `ScannerException`
+  | scanIn (file : Nat) (msg : String) (line col : Int)  -- `ScannerException` raised while scanning an included file
   | parse (line col : Int)                -- `ParserSyntaxError` (position of its token; -1 when absent)
+  | parseAt (file : Nat) (line col : Int) (ty : String) (len : Nat) -- … with file, token type and value length
   | outOfFuel                             -- the model's fuel ran out: the Python code would not terminate
   deriving DecidableEq, Repr, Inhabited
 
@@ -114,6 +117,7 @@ def Err.tag : Err → String
   | .os => "OSError" | .type => "TypeError" | .assertion => "AssertionError" | .other => "Exception"
   | .symbolNotDefined _ => "SymbolNotDefined" | .node _ _ => "NodeError" | .scan _ _ _ => "ScannerException"
   | .parse _ _ => "ParserSyntaxError" | .outOfFuel => "OUT-OF-FUEL"
+  | .nodeAt _ _ _ => "NodeError" | .scanIn _ _ _ _ => "ScannerException" | .parseAt _ _ _ _ _ => "ParserSyntaxError"
 end A816
 
 namespace A816
